@@ -25,9 +25,12 @@ pub struct Twin {
     /// statement prescribes it (restart from the lowest absent id).
     reloaded_is_main: bool,
     reloaded_pos: usize,
+    /// Only the first next_id() after a reload is judged against "restart from the lowest absent id".
+    reloaded_first_done: bool,
     /// Position of the original graph's allocator (from the hook, only to decide alignment).
     orig_pos: usize,
     pre_main_pos: usize,
+    hook_twin_pos: Option<usize>,
     /// Frozen copies (never touched again) with their digest at copy time: independence.
     frozen: Vec<(Box<dyn Graph>, String, crate::model::Model)>,
     uniq: u64,
@@ -54,8 +57,10 @@ impl Twin {
             twin: None,
             reloaded_is_main: false,
             reloaded_pos: 0,
+            reloaded_first_done: false,
             orig_pos: 0,
             pre_main_pos: 0,
+            hook_twin_pos: None,
             frozen: vec![],
             uniq: 0,
             qualified_copy: false,
@@ -108,8 +113,21 @@ fn snap_equal_mod_alloc(a: &VerifSnapshot, b: &VerifSnapshot, ignore_next: bool)
 }
 
 impl HistMonitor for Twin {
-    fn before(&mut self, s: &mut Session, _op: &Op, _ctx: &mut Ctx) {
+    fn before(&mut self, s: &mut Session, op: &Op, _ctx: &mut Ctx) {
         self.pre_main_pos = s.m.pos;
+        // for allocator-dependent calls the positions are read from the hook (facts), so that a
+        // defect in the allocator itself cannot make this monitor mis-judge alignment
+        if self.kind == Kind::Reload && matches!(op, Op::NextId | Op::Merge { .. } | Op::Script { .. }) {
+            self.pre_main_pos = s.g.snapshot().next_v;
+            if let Some(tw) = &self.twin {
+                let p = tw.snapshot().next_v;
+                if self.reloaded_is_main {
+                    self.orig_pos = p;
+                } else {
+                    self.hook_twin_pos = Some(p);
+                }
+            }
+        }
     }
     fn after(&mut self, s: &mut Session, op: &Op, o: &mut Outcome, ctx: &mut Ctx) -> Option<String> {
         let is_copy_op = matches!(
@@ -121,12 +139,13 @@ impl HistMonitor for Twin {
         if let (Op::NextId, Kind::Reload, true, true) = (op, self.kind, self.reloaded_is_main, self.twin.is_some()) {
             let want = (self.reloaded_pos..s.cap).find(|v| !o.keys_before.contains(v));
             if let (Ret::Id(id), Some(w)) = (&o.ret, want) {
-                if *id != w {
+                if *id != w && !self.reloaded_first_done {
                     return Some(format!(
                         "next_id() on the reloaded graph returned {id}; restarting from the lowest absent id gives {w}"
                     ));
                 }
                 self.reloaded_pos = id + 1;
+                self.reloaded_first_done = true;
                 ctx.c.inc("twin.reloaded-next_id-checked");
             }
         }
@@ -141,9 +160,10 @@ impl HistMonitor for Twin {
                     // (one of the two positions is the reloaded graph's, the other the original's;
                     //  s.m.pos is the main graph's, whichever that is)
                     if self.reloaded_is_main {
-                        first_abs(self.orig_pos) == first_abs(pre_reloaded_pos)
+                        // main is the reloaded graph (pre_main_pos), the twin the original (orig_pos)
+                        first_abs(self.orig_pos) == first_abs(self.pre_main_pos)
                     } else {
-                        first_abs(self.pre_main_pos) == first_abs(pre_reloaded_pos)
+                        first_abs(self.pre_main_pos) == first_abs(self.hook_twin_pos.take().unwrap_or(pre_reloaded_pos))
                     }
                 }
             };
@@ -193,9 +213,12 @@ impl HistMonitor for Twin {
                     }
                 };
                 // return values
-                let main_ret = match (op, &o.other) {
-                    (Op::Slice(_), Some(sl)) => Ret::Res(Ok(digest(sl.as_ref(), LIGHT, &ctx.labels))),
-                    _ => o.ret.clone(),
+                let main_ret = match (op, o.other.take()) {
+                    (Op::Slice(_), Some(sl)) => Ret::Res(Ok(crate::rec::slice_signature(sl, &ctx.labels))),
+                    (_, other) => {
+                        o.other = other;
+                        o.ret.clone()
+                    }
                 };
                 if let Op::NextId = op {
                     if self.kind == Kind::Reload {
@@ -203,12 +226,13 @@ impl HistMonitor for Twin {
                         if !self.reloaded_is_main {
                             let want = (self.reloaded_pos..s.cap).find(|v| !keys_before_twin.contains(v));
                             if let (Ret::Id(id), Some(w)) = (&r, want) {
-                                if *id != w {
+                                if *id != w && !self.reloaded_first_done {
                                     return Some(format!(
                                         "next_id() on the reloaded graph returned {id}; restarting from the lowest absent id gives {w}"
                                     ));
                                 }
                                 self.reloaded_pos = id + 1;
+                                self.reloaded_first_done = true;
                                 ctx.c.inc("twin.reloaded-next_id-checked");
                             }
                         }
@@ -328,6 +352,7 @@ impl HistMonitor for Twin {
             let swap = matches!(op, Op::Clone { swap: true } | Op::SaveLoad { swap: true });
             self.reloaded_is_main = swap;
             self.reloaded_pos = 0;
+            self.reloaded_first_done = false;
             self.orig_pos = sa.next_v.max(sb.next_v);
             self.twin = o.other.take();
         }
